@@ -519,6 +519,12 @@ func (env *SpecEnv) index(a, i SV) SV {
 			}
 			sfail("index of nil slice in spec")
 		}
+		if base, ok := env.vc.load(env.st, av.Base).(ArrVal); ok && len(base.E) == 0 && et != nil {
+			if es, ok := env.vc.sortOf(et); ok {
+				arr := env.vc.ufApp("nil_slice_"+sanitize(es.String()), ArrSort(env.vc.intSort(64), es))
+				return SV{V: Select(arr, it), T: et}
+			}
+		}
 		ii := env.vc.iAdd(av.Off, it)
 		v := env.vc.load(env.st, av.Base.Extend(PathElem{Field: -1, Idx: &ii}))
 		if t, ok := v.(Term); ok && et != nil {
@@ -906,10 +912,16 @@ func (env *SpecEnv) field(a SV, name string) SV {
 	v := a.V
 	if pt, ok := T.Underlying().(*types.Pointer); ok {
 		p, ok := v.(PtrVal)
-		if !ok || p.Cell == nil {
-			sfail("selector .%s through nil/unknown pointer", name)
+		if !ok {
+			sfail("selector .%s through unknown pointer", name)
 		}
-		v = vc.load(env.st, p)
+		if p.Cell == nil {
+			// nil pointer: the value is unspecified; specs guard such reads with `p != nil`,
+			// which is concretely false here
+			v = vc.zero(pt.Elem())
+		} else {
+			v = vc.load(env.st, p)
+		}
 		T = pt.Elem()
 	}
 	if oo, ok := v.(OnceObj); ok && name == "done" {
